@@ -96,7 +96,7 @@ Proof.
   - unfold dec_integer. rewrite Hts. reflexivity.
   - unfold dec_integer. rewrite Hts. reflexivity.
   - unfold dec_bool_cer. destruct (N.eqb_spec n 1) as [E|_]; [contradiction|]. reflexivity.
-  - unfold dec_bits. destruct (N.eqb n 0); [reflexivity|]. rewrite Hts, Hrej. reflexivity.
+  - unfold dec_bits. rewrite Hts, Hrej. reflexivity.
   - unfold dec_octets. rewrite Hts, Hrej. reflexivity.
   - unfold dec_null. rewrite Hts. reflexivity.
   - unfold dec_oid_v. rewrite Hts. reflexivity.
